@@ -3,6 +3,7 @@
 // name -> non-empty sequence of values in insertion order (per-name order is what HeaderMap guarantees).
 pub struct HeaderName { pub n: Ghost<Seq<char>> }
 pub struct HeaderValue { pub b: Ghost<Seq<u8>> }
+#[derive(Debug)]
 pub struct InvalidHeaderValue { pub x: u8 }
 pub struct ToStrError { pub x: u8 }
 pub type HMap = Map<Seq<char>, Seq<Seq<u8>>>;
